@@ -8,7 +8,7 @@ META = {
     "explanation": "R1 subject and truth: NameMatcher/PathMatcher/LinkNameMatcher return exactly Pattern::matches_or_report(subject, matcher_io) (no shortcut comparison), with subject = file_name() / path() / read_link target through identity conversions; "
                    "R2 caseless flag: the flag each token passes equals the oracle table (-iname -ilname -ipath -iwholename caseless, the rest not), and Pattern::new turns it into IGNORECASE / NONE; "
                    "R3 whole-string API (contracts O2, O3): the only onig entry point at the match role is Regex::match_with_param at 0 compared with Some(string.len()); a failed match is diagnosed (stderr, exit status) and false; the regex is compiled by Regex::with_options with Syntax::posix_basic() and that syntax's own options or-ed with the flag; "
-                   "R4 translation tables recovered from the char dispatch of glob_to_regex and compared row by row: ? -> '.', * -> '.*', backslash -> next char literal / trailing backslash never matches, [ -> bracket expression or literal, anything else literal; "
+                   "R3 also: Pattern::new hands its own pattern to the translation unchanged; R4 the characters scanned are those of the argument itself (no pre-pass on the pattern text); R4 translation tables recovered from the char dispatch of glob_to_regex and compared row by row: ? -> '.', * -> '.*', backslash -> next char literal / trailing backslash never matches, [ -> bracket expression or literal, anything else literal; "
                    "literal escape set of regex_push_literal == { . [ \\\\ * ^ $ } (the BRE specials); bracket prologue of extract_bracket_expr: '!' -> '^', then a leading ']' is literal with and without negation; a bracket expression that does not compile falls back to a literal '['",
     "decides": "that each test is the glob engine's verdict on the right string, compiled with the right options, through a whole-string API, and that the glob->BRE translation has the right per-character rows",
     "does_not_decide": "equality of the generated BRE's language (as implemented by onig) with fnmatch's — the core of the property, no static argument in reach; bracket-expression internals beyond the prologue",
